@@ -1023,3 +1023,21 @@ def _returns_only(g, allowed_suffixes):
         if not any(dd.endswith(s) for s in allowed_suffixes):
             return False
     return True
+
+
+def brace_scan_by_tokens(run, R="MATCH"):
+    """sibling agreement of the two scanners that look for the end of a `{ ... }` block: both count braces on tokens (a brace in a
+    comment or a string literal is no brace), none on raw characters"""
+    n, bad = 0, []
+    for name in ("Walker::<'src>::advance_until_closing_brace", "Walker::<'src>::advance_until_linebreak"):
+        g = run.anchor(R, name)
+        if g is None:
+            continue
+        n += 1
+        toks = any((t.get("resolved") or t.get("callee") or "").endswith("::next_token") for _, t in g.calls())
+        raw = [st for bi, si, st in g.stmts() if st["k"] == "assign" and st["rv"]["k"] == "binop" and st["rv"]["op"] in ("Eq", "Ne")
+               and any(o.get("ty") == "char" and str(o.get("int")) in ("123", "125") for o in (st["rv"]["l"], st["rv"]["r"]))]
+        if not toks or raw:
+            bad.append(name.rsplit("::", 1)[-1])
+    run.check(n == 2 and not bad, R, R + "|block-end|by-tokens", "-", "the end of a braced block is found by counting brace tokens",
+              "%s counts raw `{`/`}` characters: a `}` inside a comment or a string literal of an asm block ends the block (`ld 7 ; closes with }` gives `invalid pattern token`)" % ", ".join(bad))
